@@ -119,7 +119,8 @@ def run(ctx):
                 "(all up front, 1-byte lazy, random lazy, frame boundaries lazy, cuts inside bodies lazy); lazy = next chunk fed "
                 "only when the reader is blocked; plus ARRIVAL SCHEDULES (random cuts around delimiters / header ends, empty chunks, chunks already "
                 "there before a call or arriving one at a time while it is suspended) with the implementation observed at every suspension "
-                "(state, bytes buffered, bytes demanded) against the resumable machine of Model/ReaderChunks. distinct = distinct byte streams; non-trivial = >= 2 frames incl. one not for us")
+                "(state, bytes buffered, bytes demanded) against the resumable machine of Model/ReaderChunks; and ARBITRARY INTERLEAVINGS (moves: a chunk / the end arrives, the reader runs; "
+                "any order, bursts, spurious runs, schedules cut short) against the small-step system of Model/ReaderSched. distinct = distinct byte streams; non-trivial = >= 2 frames incl. one not for us")
     cases = []
     for fn, ln in load_corpus("C04"):
         cases.append(("corpus:" + fn, [bytes.fromhex(x) for x in ln.split()]))
@@ -147,12 +148,23 @@ def run(ctx):
     parts = Parts(res)
     sub = [(label, b"".join(fr)) for label, fr in cases if len(b"".join(fr)) <= 1500][:(260 if tier == "quick" else 6000)]
     parts.run("arrival schedules vs the resumable reader machine", chunks.evaluate, res, sub, random.Random(ctx["seed"] * 104729 + 41))
+    # ANY order of arrivals and reader runs (arrivals while the reader is not waiting, several in a row, runs with nothing new,
+    # schedules cut short): Model/ReaderSched, C04.every_interleaving_prefix / every_interleaving_complete
+    parts.run("arbitrary interleavings of arrival and reader progress", chunks.evaluate_moves, res, sub[:(200 if tier == "quick" else 4000)],
+              random.Random(ctx["seed"] * 104729 + 43))
     parts.finish()
     return res
 
 
 def replay(ctx):
     f = ctx["replay"].get("failure") or ctx["replay"].get("first_difference")
+    if f["input"].get("via") == "moves":
+        import chunks
+        res = Result("C04")
+        res.rule = "replay of one recorded interleaving of arrivals and reader runs"
+        chunks.replay_moves(res, f["input"])
+        res.case(str(f["input"]["chunks"]) + f["input"]["moves"])
+        return res
     if f["input"].get("via") == "chunks":
         import chunks
         res = Result("C04")
